@@ -73,6 +73,7 @@ func genWarrior(r *Rng, idx int64, d asm.Dialect, m, maxLen int) ([]mars.Insn, i
 }
 
 func runC09(c *Ctx) {
+	runPinned(c, "C09")
 	n := int64(12000)
 	if c.Thorough() {
 		n = 1200000
